@@ -17,6 +17,9 @@ type symReg struct {
 	typ int
 }
 
+// symMaxTokens > 0: only that many tokens of an input are read (very long symbols make every later token as expensive as the first)
+var symMaxTokens = 0
+
 type symStateTable struct{ st *generic.GenericSymbolState }
 
 func (t symStateTable) Add(value string, tokenType int) { t.st.Add(value, tokenType) }
@@ -49,7 +52,7 @@ func runSymCase(c *Ctx, regs []symReg, input []rune, rereads int) {
 				// use / register / use: the table is used between registrations (nothing a scan looked up
 				// before a registration may be remembered after it)
 				sc := rio.NewStringScanner(string(input))
-				for n := 0; sc.Peek() != -1 && n < len(input)+2; n++ {
+				for n := 0; sc.Peek() != -1 && n < len(input)+2 && (symMaxTokens == 0 || n < symMaxTokens); n++ {
 					root.NextToken(sc)
 				}
 			}
@@ -88,7 +91,7 @@ func runSymCase(c *Ctx, regs []symReg, input []rune, rereads int) {
 					oracle = fmt.Sprintf("pass %d at offset %d: got %d:%q, longest registered prefix is %d:%q", pass, pos, t.Type(), string(v), bestTyp, string(best))
 				}
 				pos += len(v)
-				if len(v) == 0 {
+				if len(v) == 0 || (symMaxTokens > 0 && len(ts) >= symMaxTokens) {
 					break
 				}
 			}
@@ -118,8 +121,8 @@ func runSymCase(c *Ctx, regs []symReg, input []rune, rereads int) {
 		return
 	}
 	for _, r := range regs {
-		if r.typ < 0 {
-			return // type codes are natural numbers in the model: negative ones are judged by the direct oracle only
+		if r.typ < 0 || len(r.sym) > 5000 {
+			return // negative type codes / symbols of tens of thousands of characters: judged by the direct oracle only
 		}
 	}
 	c.model(op, impl, "model")
@@ -195,6 +198,18 @@ func propC16(c *Ctx) {
 			runSymCase(c, []symReg{{[]rune("="), tokenizers.Symbol}, {two, tokenizers.Keyword}}, in, 1)
 			runSymCase(c, []symReg{{two, tokenizers.Keyword}, {[]rune("="), tokenizers.Symbol}, {[]rune{first, '=', '='}, tokenizers.Special}}, in, 1)
 		}
+	}
+	// a symbol longer than 65536 characters: an input that follows it almost to its end falls back over all those characters
+	{
+		long := repeatTo("<=>", 65540)
+		regs := []symReg{{long, tokenizers.Keyword}, {[]rune("<="), tokenizers.Symbol}}
+		symMaxTokens = 3
+		for _, cut := range []int{65538} {
+			in := append(append([]rune(nil), long[:cut]...), 'x')
+			runSymCase(c, regs, in[:cut+1], 0)
+		}
+		runSymCase(c, regs, append(append([]rune(nil), long...), '<', '='), 0)
+		symMaxTokens = 0
 	}
 	for _, neg := range []int{-1, -7, -1 << 40} {
 		for _, in := range []string{"@x", "@@", "@", "@@@", "x@"} {
